@@ -15,7 +15,8 @@
 (***************************************************************************)
 EXTENDS CookAnalysis, Json
 
-CONSTANTS Syntax,      \* extensions whose SYNTAX may be written (= Ext normally; C02 writes syntax the parser has off)
+CONSTANTS Variants,    \* TRUE: every finished document is also printed in its C17 variants
+          Syntax,      \* extensions whose SYNTAX may be written (= Ext normally; C02 writes syntax the parser has off)
           Defects,     \* TRUE: the C07 defect actions are enabled (at most one defect per document)
           Mode,        \* "bfs": every choice enumerated (small pools, canonical spelling); "sim": random choice
           Kernel,      \* which pools / actions are enabled: "ref" | "struct" | "switch" | "full"
@@ -130,7 +131,7 @@ CompChunks(kind, c, sp) ==
   \o (IF c.note # "" THEN <<"(", c.note, ")">> ELSE <<>>)
 
 (* ---- byte offsets of what has been written (labels of diagnostics are byte spans) -------------------- *)
-ChunkBytes(c) == CASE c \in {"LF", "CR", "BS", "QUOTE", "TAB"} -> 1 [] c \in {"E2", "DEG", "NBSP"} -> 2 [] c = "E4" -> 4 [] OTHER -> Len(c)
+ChunkBytes(c) == CASE c \in {"LF", "CR", "BS", "QUOTE", "TAB", "SP"} -> 1 [] c = "GAP" -> 0 [] c \in {"E2", "DEG", "NBSP"} -> 2 [] c = "E4" -> 4 [] OTHER -> Len(c)
 RECURSIVE BytesOf(_, _)
 BytesOf(cs, i) == IF i > Len(cs) THEN 0 ELSE ChunkBytes(cs[i]) + BytesOf(cs, i + 1)
 NoDefect == [class |-> "", sev |-> "", stage |-> "", s |-> 0, e |-> 0]
@@ -142,10 +143,12 @@ Init == text = <<>> /\ a = A0 /\ w = W0
 InitCRLF == text = <<>> /\ a = A0 /\ w \in {W0, [W0 EXCEPT !.crlf = TRUE]}
 
 \* separator before a block: a blank (or comment-only) line is needed between two multi-line blocks
+\* "GAP" is a zero-width chunk marking the start of a block (where C17 may add blank or comment-only lines)
 BlockGap(kind, sp) == IF w.prev = "none" THEN <<>>
-                      ELSE IF w.prev \in {"step", "text"} /\ kind \in {"step", "text"}
-                           THEN (CASE sp.gap = 1 -> NL [] sp.gap = 2 -> NL \o NL [] sp.gap = 3 -> <<"-- note">> \o NL)
-                      ELSE (CASE sp.gap = 1 -> NL [] sp.gap = 2 -> <<>> [] sp.gap = 3 -> <<"  ">> \o NL)
+                      ELSE <<"GAP">> \o
+                           (IF w.prev \in {"step", "text"} /\ kind \in {"step", "text"}
+                            THEN (CASE sp.gap = 1 -> NL [] sp.gap = 2 -> NL \o NL [] sp.gap = 3 -> <<"-- note">> \o NL)
+                            ELSE (CASE sp.gap = 1 -> NL [] sp.gap = 2 -> <<>> [] sp.gap = 3 -> <<"  ">> \o NL))
 Top == w.phase = "top" /\ w.nb < MaxBlocks
 
 AddMeta == /\ Top /\ a.oldStyle /\ Kernel = "full"
@@ -192,7 +195,8 @@ BeginStep == /\ Top
              /\ w' = [w EXCEPT !.phase = "step", !.nb = @ + 1, !.ni = 0, !.run = <<>>, !.prev = "step", !.last = "none"]
 \* separator between two items of a step: all of these read as one blank
 ItemSep(sp) == IF w.ni = 0 THEN <<>>
-               ELSE CASE sp.sep \in {1, 2} -> <<" ">> [] sp.sep = 3 -> NL [] sp.sep = 4 -> <<" [- c -] ">> [] sp.sep = 5 -> <<" -- c">> \o NL
+               ELSE CASE sp.sep \in {1, 2} -> <<"SP">> [] sp.sep = 3 -> NL [] sp.sep = 4 -> <<" [- c -] ">> [] sp.sep = 5 -> <<" -- c">> \o NL
+                    \* "SP" is one blank: a chunk of its own so that C17 knows where a block comment may go
 InStep == w.phase = "step" /\ w.ni < MaxItems
 SepPiece == IF w.ni = 0 THEN <<>> ELSE <<[t |-> "s", v |-> " "]>>
 AddWord == /\ InStep /\ Kernel \in {"full", "struct", "defect"}
@@ -370,11 +374,42 @@ Next == AddMeta \/ ModeSwitch \/ FrontMatter \/ AddSection \/ AddTextBlock \/ Be
         \/ (Defects /\ (AddParseDefect \/ AddAnalysisDefect \/ AddRefDefect \/ BadModeValue \/ BadFrontMatter))
 Done == w.phase = "done"
 
+(* ---- C17: the same document with other line endings, comments and blank space ---------------------------------------- *)
+\* index of the first chunk of the Cooklang part (after a front matter, whose lines are YAML, not Cooklang)
+RECURSIVE FenceEnd(_, _)
+FenceEnd(t, i) == IF i > Len(t) THEN Len(t) + 1 ELSE IF t[i] = "---" /\ i > 1 THEN i + 2 ELSE FenceEnd(t, i + 1)   \* past the LF of the closing fence
+CookStart == IF w.fm THEN FenceEnd(text, 2) ELSE 1
+RECURSIVE Subst(_, _, _, _, _)
+\* replaces chunk `c` by `by` at its k-th, (k+step)-th ... occurrence at or after index `from`; chunks before are kept
+Subst(t, i, c, by, st) ==   \* st: [from, k, step, n] n = occurrences seen so far
+  IF i > Len(t) THEN <<>>
+  ELSE IF t[i] = c /\ i >= st.from
+       THEN (IF (st.n % st.step) = st.k THEN by ELSE <<t[i]>>) \o Subst(t, i + 1, c, by, [st EXCEPT !.n = @ + 1])
+       ELSE <<t[i]>> \o Subst(t, i + 1, c, by, st)
+Every(from) == [from |-> from, k |-> 0, step |-> 1, n |-> 0]
+Odd(from)   == [from |-> from, k |-> 1, step |-> 2, n |-> 0]
+VariantTexts ==
+  [crlf       |-> Subst(text, 1, "LF", <<"CR", "LF">>, Every(1)),
+   comment    |-> Subst(text, 1, "LF", <<" -- x", "LF">>, Every(CookStart)),
+   commentodd |-> Subst(text, 1, "LF", <<"  -- y z", "LF">>, Odd(CookStart)),
+   spaces     |-> Subst(text, 1, "LF", <<"  ", "LF">>, Every(CookStart)),
+   tabs       |-> Subst(text, 1, "LF", <<"TAB", "LF">>, Odd(CookStart)),
+   block      |-> Subst(text, 1, "SP", <<" [- x -] ">>, Every(1)),
+   blockodd   |-> Subst(text, 1, "SP", <<"SP", "[- x y -]">>, Odd(1)),
+   blank      |-> Subst(text, 1, "GAP", <<"LF">>, Every(1)),
+   blankodd   |-> Subst(text, 1, "GAP", <<"  ", "LF", "LF">>, Odd(1)),
+   notes      |-> Subst(text, 1, "GAP", <<"-- n", "LF">>, Every(1)),
+   blocknote  |-> Subst(text, 1, "GAP", <<"[- n -]", "LF">>, Odd(1)),
+   \* blanks after the `---` fences of a front matter (the fence is compared after trimming the line end)
+   fenceblank |-> Subst(text, 1, "---", <<"---", "  ">>, Every(1)),
+   fencetab   |-> Subst(text, 1, "---", <<"---", "TAB">>, Odd(1))]
+
 (* ---- what the specification predicts for the finished document ------------------------------------- *)
 DiagClasses == [i \in DOMAIN a.diags |-> a.diags[i]]
 OnlyDeprecation == \A i \in DOMAIN a.diags : a.diags[i].class = "DeprecatedMetadata"
 Prediction == [model |-> ModelOf(a), valid |-> Valid(a), diags |-> a.diags, wellformed |-> (OnlyDeprecation /\ ~a.failed /\ w.defect = NoDefect), failed |-> a.failed]
-Emit == Done => PrintT(<<"REPLAY", IF w.defect = NoDefect THEN ToJson([text |-> text, ext |-> Ext, conv |-> Conv, pred |-> Prediction, uses |-> w.uses])
+Emit == Done => PrintT(<<"REPLAY", IF Variants /\ ~w.crlf THEN ToJson([text |-> text, ext |-> Ext, conv |-> Conv, pred |-> Prediction, uses |-> w.uses, variants |-> VariantTexts])
+                                   ELSE IF w.defect = NoDefect THEN ToJson([text |-> text, ext |-> Ext, conv |-> Conv, pred |-> Prediction, uses |-> w.uses])
                                    ELSE ToJson([text |-> text, ext |-> Ext, conv |-> Conv, pred |-> Prediction, uses |-> w.uses, defect |-> w.defect])>>)
 
 (* ---- C06 / C07 at model level: invariants of every reachable analysis state ------------------------------ *)
